@@ -919,7 +919,13 @@ def deep_nesting(cx):
             cases.append(("mark-tuple-chain", "id=0 %s min=%d max=%d warm=0 mode=arb:%s" % (cfg, 2 * n_mk + 1, 2 * n_mk + 1, data.hex())))
     cx.cov["deep_nesting_cases"] = len(cases)
     for name, line in cases:
-        rc, out, err = sh([HARNESS, "heap", "--stdin"], inp=line + "\n", timeout=STREAM_TIMEOUT[0], big_stack=False)
+        try:
+            rc, out, err = sh([HARNESS, "heap", "--stdin"], inp=line + "\n", timeout=min(STREAM_TIMEOUT[0], 240 if cx.tier == "quick" else 1800), big_stack=False)
+        except subprocess.TimeoutExpired:
+            cx.cov["evaluations"] += 1
+            cx.failing.append(("deep-nesting", line[:200] + "...(family %s, see check.py deep_nesting)" % name,
+                               "the_process_did_not_finish_in_time_(a_few_seconds_on_the_unchanged_tree)_while_generating,_reusing_or_dropping_a_%s" % name))
+            continue
         cx.cov["evaluations"] += 1
         cx.bump("deep-nesting/" + name)
         got = [l for l in out.split("\n") if l.startswith("heap id")]
